@@ -224,14 +224,28 @@ def o3_o6(ctx, F, roles):
     ok = len(tst) == 1 and len(sleep) == 1 and tcfg.dominates(sleep[0][0], tst[0][0])
     ctx.check("C14.O3", "timer-sleeps-then-clears-the-flag", ok, fn=roles["timer"]["path"], file=fn["file"],
               what="the timer thread must sleep for the budget and then clear the running flag", found={"stores": len(tst), "sleeps": len(sleep)})
-    # captured flag of both closures is a clone of the parameter
-    env = hir.Env(fn["hir"], F)
-    sym = hir.Sym(env, F)
+    # captured flag of both closures is a clone of the parameter (MIR: the Arc<AtomicBool> operand of each closure
+    # aggregate is the result of Arc::clone on something rooted in the parameter)
+    defs = mir.copy_sources(fn)
+    m = fn["mir"]
+    flag_params = [i for i in range(1, m["arg_count"] + 1) if "Arc<std::sync::atomic::Atomic" in m["locals"][i]["ty"] or "AtomicBool" in m["locals"][i]["ty"]]
     caps = []
-    for n, anc in hir.walk(fn["hir"]["body"]):
-        if n.get("k") == "SLet" and n["pat"].get("k") == "PBind" and n["pat"]["name"] == "search_is_running":
-            caps.append(hir.fmt(sym(n["init"]), 120))
-    ok = len(caps) == 2 and all(c.endswith("clone(search_is_running)") for c in caps)
+    for blk in m["blocks"]:
+        for st in blk["stmts"]:
+            rv = st.get("rv") or {}
+            if st["k"] == "Assign" and rv.get("k") == "Aggregate" and rv.get("ak") == "Closure" and \
+                    rv.get("closure") in (roles["timer"]["path"], roles["search"]["path"]):
+                for o in rv["ops"]:
+                    if o.get("k") in ("copy", "move") and ("Atomic<bool>" in o["place"].get("ty", "") or "AtomicBool" in o["place"].get("ty", "")):
+                        r, _ = mir.root_of(o["place"]["l"], defs)
+                        ds = defs.get(r) or []
+                        src = None
+                        if len(ds) == 1 and ds[0].get("k") == "CallResult" and ds[0]["callee"].endswith("clone") and ds[0]["args"] and \
+                                ds[0]["args"][0].get("k") in ("copy", "move"):
+                            r2, _ = mir.root_of(ds[0]["args"][0]["place"]["l"], defs)
+                            src = r2
+                        caps.append((rv["closure"].split("::")[-1], "clone of parameter" if src in flag_params else "other: local _%s" % (src if src is not None else r)))
+    ok = len(caps) == 2 and all(c[1] == "clone of parameter" for c in caps) and len({c[0] for c in caps}) == 2
     ctx.check("C14.O3", "both-threads-share-the-command's-flag", ok, fn=GO, file=fn["file"],
               what="timer and search thread must each capture a clone of the Arc<AtomicBool> created for this `go`", found=caps)
     # O6
